@@ -98,9 +98,17 @@ pub fn c08_twin(plan: &Plan, out: &RunOut) -> Option<Violation> {
         // progress is compared for players only: a slow spectator configured to live at the edge of
         // its 60-frame ring can be tipped over (SpectatorTooFarBehind, the recorded C05 finding) by
         // any shift in timing, including the one extra acknowledgement a forged packet may cost
+        // ... and per unit of time since the session started running: a forged packet that the
+        // endpoint answers (an input packet from a spectator's address is acknowledged) is one more
+        // packet on a lossy link, which may legitimately make a handshake finish later
+        let running_since = |n: &crate::world::NodeObs| n.events.iter().filter(|(_, e)| matches!(e, Ev::Synchronized { .. })).map(|(t, _)| *t).max().unwrap_or(0);
+        // (the peers wait for each other: the game starts when the last of them is running)
+        let start = |o: &RunOut| o.nodes.iter().filter(|n| n.is_peer).map(running_since).max().unwrap_or(0);
+        let (ta, tb) = (out.end_us.saturating_sub(start(out)) as i64, tout.end_us.saturating_sub(start(&tout)) as i64);
         let (fa, fb) = (a.final_frame as i64, b.final_frame as i64);
+        let fb = if tb > 0 && ta < tb { fb * ta / tb } else { fb };
         if a.is_peer && fa < fb - 10 - fb / 5 {
-            return Some(v("c08.injection_cost_progress", format!("node {i} reached frame {fa} with the forged packets and frame {fb} without"), i, a.final_frame));
+            return Some(v("c08.injection_cost_progress", format!("node {i} reached frame {fa} with the forged packets; without them it made {fb} frames in the same running time"), i, a.final_frame));
         }
     }
     None
